@@ -36,6 +36,7 @@ def run(R):
     from serdepair import serde_agreement
     serde_agreement(R, "C19.registry.fields", ["ant_service_management::NodeRegistry"], 9)
     port_rules(R)
+    port_count_rule(R)
     R.whole_file_write("C19.registry.whole", "ant_service_management::NodeRegistry::save", "the registry saved after each step is replaced whole (loads back to the same state)")
     F = R.F
     owners = [NS + "on_start", NS + "on_stop", NS + "on_remove"]
@@ -93,6 +94,31 @@ def run(R):
         g_any = [CallGuard([SC + "get_process_pid"], ("Ok",), "get_process_pid is Ok(pid)"), CallGuard(["*::node_info"], ("Ok",), "rpc node_info is Ok")]
         R.gate("C19.refresh", ref, CallSink(SSA + "on_start", NS + "on_start"), [g_any], descr="refresh: on_start only behind Ok(pid) from the OS or Ok(info) from the node")
         _pid_arg(R, "C19.refresh.pid", ref, [SC + "get_process_pid", "*::node_info"])
+        # a removed service stays removed: where the refresh looks the process up by its binary, on_stop (→ Stopped) is reached only on a
+        # branch that has established the recorded status is not Removed (nor Added)
+        import tables as T_
+        sn = {v: k for k, v in (T_.variant_names(F, "ant_service_management::ServiceStatus") or {}).items()}
+        gpp = [b["id"] for b in ref.blocks if b["term"]["k"] == "call" and not b["cleanup"] and callee_matches(b["term"], [SC + "get_process_pid"])]
+        nxt = {b["id"] for b in ref.blocks if b["term"]["k"] == "call" and not b["cleanup"] and (b["term"].get("ngen") or "").endswith("iterator::Iterator::next")}
+        # (within one iteration of the per-service loop)
+        stops = [b for b in CallSink(SSA + "on_stop", NS + "on_stop").blocks(ref) if gpp and b in g.reach(tuple(gpp), avoid=nxt)]
+        okr = bool(stops) and "Removed" in sn
+        if okr:
+            cut = set()
+            from rules import VariantGuard
+            n_, acc_, rej_ = VariantGuard(call_results(["*::status"]), "Removed", sn["Removed"], "status is Removed").edges(ref)
+            if not acc_:
+                okr = False
+            rem_rej, rem_acc = set(rej_), set(acc_)
+            # on_stop must lie behind a rejecting edge of "status is Removed" (i.e. status known not to be Removed) …
+            if okr and (set(stops) & g.reach(tuple(gpp), cut=rem_rej, avoid=nxt)):
+                okr = False
+            # … and never after its accepting edge
+            if okr and any(set(stops) & g.reach((d,), cut=rem_rej, avoid=nxt) for _, d in rem_acc):
+                okr = False
+        if not okr:
+            R.viol("C19.refresh.removed", "removed-resurrected", "refresh_node_registry can mark a service Stopped (on_stop) without having established that it is not Removed: a removed service does not stay removed", ref, ref.lines[0])
+        R.inst("C19.refresh.removed", "K4 gate", "refresh: on_stop after a failed process lookup only for a service that is not Removed", len(stops), okr)
     ost = R.body("C19.on_start", NS + "on_start::{closure#0}")
     if ost is not None:
         prep(ost)
@@ -110,6 +136,9 @@ def run(R):
             pw = [s for b in ost.blocks for s in b["stmts"] if len(s["d"]) > 1 and s["d"][-1] == ".pid"]
             pids = Taint(ost).closure(PL(ost, 1))  # (self, pid, full_refresh)
             ok = ok and bool(pw) and all(op_local(s["rv"].get("a", ["?"])) in pids for s in pw)
+            # … on every path: the pid recorded is the one the caller found for the service's own binary, never one obtained elsewhere
+            from flow import must_be_copy_of
+            ok = ok and all(s["rv"]["k"] == "use" and s["rv"]["a"][0] in ("cp", "mv") and must_be_copy_of(ost, op_local(s["rv"]["a"]), PL(ost, 1)) for s in pw)
         if not ok:
             R.viol("C19.on_start", "running-last", "NodeService::on_start must set status = Running (and the given pid) as its last effect, after every fallible RPC", ost, ost.lines[0])
         R.inst("C19.on_start", "K5 must-follow", "on_start: nothing fallible follows `status = Running`; pid written = pid argument", len(w), ok)
@@ -399,6 +428,39 @@ def _pid_arg(R, rule, body, srcs):
 
 
 CPA = NM + "helpers::check_port_availability"
+
+
+def port_count_rule(R):
+    """PortRange::validate(count) is Ok only when `count` *equals* the number of ports named: add_node checks exactly the named ports
+    against the registry and then hands out port, port+1, … per service — a count larger than the range would hand out ports that were
+    never compared with what other services record."""
+    F = R.F
+    vb = R.body("C19.ports.count", NM + "add_services::config::PortRange::validate")
+    if vb is None:
+        return
+    prep(vb)
+    g = cfg_of(vb)
+    cnt = Taint(vb, through="all").closure(PL(vb, 1))
+    tr = Tracker(vb)
+    n, weak = 0, []
+    for c in compare_sites(vb):
+        la, lb = op_local(c["a"]), op_local(c["b"])
+        if (la in cnt) == (lb in cnt):
+            continue
+        n += 1
+        if c["op"] == "Eq":
+            tr.seed_bool(c["d"], True)
+        elif c["op"] == "Ne":
+            tr.seed_bool(c["d"], False)
+        else:
+            weak.append(c)
+    tr.run()
+    oks = set(RetSink("Ok", computed=True).blocks(vb))
+    ok = n >= 2 and not weak and bool(tr.accept) and bool(oks) and not (oks & g.reach((0,), cut=tr.accept))
+    if not ok:
+        R.viol("C19.ports.count", "count-not-equal", "PortRange::validate accepts a count that differs from the number of ports named (%s): services beyond the range get ports that were never checked against the registry" % (
+            "comparison is %s" % weak[0]["op"] if weak else "Ok reachable without count == number of ports"), vb, (weak[0]["line"] if weak else vb.lines[0]))
+    R.inst("C19.ports.count", "K4 gate", "PortRange::validate is Ok only if count == number of ports (single: 1; range: end - start + 1)", n, ok)
 
 
 def port_rules(R):
